@@ -30,6 +30,18 @@ def observe(o):
             'callbacks': len(o.callbacks), 'dtype': o.dtype}
 
 
+class Impure(Exception):
+    """a derivation (an operation that returns a NEW object) changed one of the objects that existed before it"""
+
+
+def full_observe(o):
+    d = observe(o)
+    d['storage'] = str(getattr(o.val, 'dtype', type(o.val)))
+    d['vdtype'] = repr(o.vdtype)
+    d['scale_bias'] = (repr(o.scale), repr(o.bias))
+    return d
+
+
 # ------------------------------------------------------------------------------------------ roots
 def make_root(kind, cfgk):
     rec = Recorder()
@@ -226,9 +238,15 @@ def build_chain(root, chain):
     for name in chain:
         d = DERIVS[DNAMES.index(name)]
         o = heap[-1]
+        before = [full_observe(x) for x in heap]
         new = d[1](heap, o)
         if not isinstance(new, Fxp):
             raise Disabled()
+        after = [full_observe(x) for x in heap]
+        if after != before:
+            k = [i for i in range(len(heap)) if after[i] != before[i]][0]
+            raise Impure('derivation %r changed object %d (its operand or an earlier object): %s' % (
+                name, k, {f: (before[k][f], after[k][f]) for f in before[k] if before[k][f] != after[k][f]}), name)
         if d[2]:
             views[len(heap)] = len(heap) - 1
         heap.append(new)
@@ -270,6 +288,9 @@ def check_chain(acc, root, chain):
         heap, views = build_chain(root, chain)
     except Disabled:
         acc.outcome('disabled')
+        return None
+    except Impure as e:
+        acc.violation('operand_mutated', case0, 'root %s chain %s: %s' % (root, chain, e.args[0]), {'part': 'A', 'deriv': e.args[1], 'aspect': 'purity'})
         return None
     except Exception as e:
         # C20 is about sharing, not about which operand combinations an operation accepts: a raising derivation is no state
